@@ -199,3 +199,11 @@ package strategy
 //@   requires 0 <= i && i < len(r) && 0 <= j && j < len(r)
 //@   # GLOBAL orders nodes by the usage they would have after one more instance
 //@   ensures[C03.global-order] result == (r[i].Usage + r[i].Rate < r[j].Usage + r[j].Rate)
+
+//@ # ---------- dispatch (C01, C02) ----------
+//@ # the strategy registered under the requested name is handed the candidates, the requested count, the total and the
+//@ # node limit exactly as they were given (the plan functions may reorder the candidate slice in place)
+//@ func Deploy
+//@   modifies strategyInfos[_]
+//@   assert[C01.deploy-args,C02,C03] before call deployMethod#1: arg1 == old(strategyInfos) && arg2 == old(count) && arg3 == old(total) && arg4 == old(nodesLimit) && old(count) >= 1
+//@   ensures[C02.deploy-refuse-count] old(count) <= 0 ==> result1 != nil
